@@ -68,8 +68,9 @@ CLAIM = dict(
          "generated function of generated template sets (for/else/recursive loops with and without filters, blocks, super, "
          "extends, include, import, macros, call blocks, set/filter blocks, nested) classified and decided by the Lean "
          "driver; L-e2e stop after k chunks and cancel at the k-th await for every k through generate_async and "
-         "render_async, generators tracked by firstiter and inspected after the task has finished. Known finding: the "
-         "loop-filter generator of `{% for … if … %}` is iterated bare (C36:bare:loop-filter).",
+         "render_async, generators tracked by firstiter and inspected after the task has finished. Every generated function "
+         "of every template set must be allBracketed (no exception: the loop-filter generator of `{% for … if … %}`, formerly "
+         "iterated bare - finding F14 - is bracketed since /repo 78a2e7a; the witness template stays in the fixed corpus).",
     note="Trusted: Lean kernel; hand-written semantics Model/GenTree.lean (validated against CPython by correspondence); "
          "the ast classifier of generated code; asyncio semantics. Scope: only generators created by the template "
          "machinery (roots, blocks, includes, parents, loop filters, generate_async); async generators supplied as data "
@@ -463,7 +464,7 @@ class TGen:
 
 
 FIXED_SETS = [
-    ({"main": "{% for x in xs if x >= 0 %}[{{ x }}]{% endfor %}"}, ["main"]),                         # F14 witness
+    ({"main": "{% for x in xs if x >= 0 %}[{{ x }}]{% endfor %}"}, ["main"]),                         # F14 witness (fixed 78a2e7a)
     ({"main": "{% for x in xs if x %}{{ aw(x) }}{% else %}E{% endfor %}"}, ["main"]),
     ({"main": "{% for x in xs %}[{{ aw(x) }}{{ loop.index }}]{% endfor %}"}, ["main"]),
     ({"main": "{% for x in ax() %}[{{ x }}]{% endfor %}"}, ["main"]),
@@ -673,9 +674,9 @@ def l_templates(ctx, res, cov, jinja2):
         if rep[0] != "ok":
             raise core.HarnessError(f"driver: {rep} for {core.sx(stmts)}")
         allb, nbare, labels = rep[1]
-        if not allb:
+        if not allb:      # every generated function must be fully bracketed (theorem bracketed_closed then applies to it)
             bare_functions += 1
-            for lab in labels:
+            for lab in (labels or ["unknown"]):
                 static_bare.setdefault(lab, {"templates": templates, "template": name, "function": fn})
     static_of = {c: static_of_cls(c) for c in leaks}
     explained = set()
